@@ -7,7 +7,7 @@ pub const FAMILIES: [&str; 19] = [
     "negzero", "tiechain", "rowconst",
 ];
 /// families that are valid input only for some methods (never drawn blindly)
-pub const SPECIAL_FAMILIES: [&str; 3] = ["rampdips", "maxmag", "hugechain"];
+pub const SPECIAL_FAMILIES: [&str; 4] = ["rampdips", "maxmag", "hugechain", "subnormal"];
 
 /// sizes next to the powers of two at which word / block / narrow-integer shortcuts change behaviour
 pub const BOUNDARY_SIZES: [u64; 18] = [31, 32, 33, 63, 64, 65, 127, 128, 129, 131, 132, 135, 191, 192, 193, 255, 256, 257];
@@ -115,6 +115,15 @@ pub fn matrix_f64(rng: &mut Rng, n: usize, fam: &str, wide: bool) -> Vec<f64> {
             let pmax = [0u64, 2, 3, 1][rng.below(4) as usize];
             for _ in 0..len {
                 if pmax > 0 && rng.below(pmax) == 0 { v.push(mx); } else { v.push(lo + rng.unit() * (hi - lo)); }
+            }
+        }
+        "subnormal" => {
+            // finite values below the smallest normal number (and a few ordinary ones): valid input,
+            // single / complete only select them, the arithmetic methods average them
+            let tiny = if wide { f64::MIN_POSITIVE } else { f32::MIN_POSITIVE as f64 };
+            let least = if wide { 5e-324 } else { 1.4e-45 };
+            for _ in 0..len {
+                v.push(match rng.below(5) { 0 => least * (1 + rng.below(7)) as f64, 1 => tiny * rng.unit(), 2 => 0.0, 3 => tiny * (1.0 + rng.unit()), _ => rng.unit() });
             }
         }
         "hugechain" => {
@@ -349,7 +358,17 @@ pub fn history(rng: &mut Rng, thorough: bool) -> History {
         let algo = rng.below(5) as u8;
         let method = loop { let m = rng.below(7) as u8; if accepts(algo, m) { break m; } };
         let r = rng.below(100);
-        if r < 10 {
+        // the length of the previous (valid) call's matrix with another observation count: a shape
+        // that was right a moment ago on this very state
+        let prev_valid: Option<(u64, usize)> = calls.last().and_then(|c: &HistCall| {
+            if c.kind != "malformed" && c.kind != "nan" && c.n >= 3 && c.bits.len() as u64 == c.n * (c.n - 1) / 2 { Some((c.n, c.bits.len())) } else { None } });
+        if r >= 94 && prev_valid.is_some() {
+            let (pn, plen) = prev_valid.unwrap();
+            let n2 = match rng.below(5) { 0 => pn - 1, 1 => pn - 2, 2 => 2, 3 => rng.below(2), _ => pn + 1 };
+            let v: Vec<f64> = (0..plen).map(|k| 1.0 + (k % 5) as f64 * 0.5).collect();
+            n = n2;
+            calls.push(HistCall { algo, method, n: n2, bits: to_bits(&v, wide), kind: "malformed" });
+        } else if r < 10 {
             // malformed shape: panics in the shape check
             let good = (n * n.saturating_sub(1) / 2) as usize;
             let len = if rng.below(2) == 0 { good + 1 } else { good.saturating_sub(1).max(if good == 0 { 1 } else { 0 }) };
